@@ -50,6 +50,9 @@ def eq(a, b):
             return False
         if a.units != b.units:
             return False
+        if isinstance(a.magnitude, np.ndarray) or isinstance(b.magnitude, np.ndarray):
+            return isinstance(a.magnitude, np.ndarray) and isinstance(b.magnitude, np.ndarray) and \
+                a.magnitude.shape == b.magnitude.shape and bool((abs(a.magnitude - b.magnitude) <= 1e-12 * (1 + abs(b.magnitude))).all())
         return abs(a.magnitude - b.magnitude) <= 1e-12 * (1 + abs(b.magnitude))
     if isinstance(a, dict):
         return isinstance(b, dict) and a.keys() == b.keys() and all(eq(a[k], b[k]) for k in a)
@@ -76,6 +79,8 @@ def model(upd, v, u):
             s = s.copy()
             s[s < 0] = 0
             return s
+        if isinstance(getattr(s, 'magnitude', None), np.ndarray):
+            return np.where(s.magnitude < 0, 0.0, s.magnitude) * s.units
         return s if s >= 0 else 0 * s
     if upd == 'merge':
         out = copy.deepcopy(v)
@@ -182,6 +187,8 @@ def rvalue(r, kind):
         return {'__q__': r.randint(-40, 40) / 8, 'u': r.choice(['fg', 'pg', 'ng'])}
     if kind == 'time':
         return {'__q__': r.randint(-40, 40) / 8, 'u': r.choice(['s', 'ms'])}
+    if kind == 'qarr':
+        return {'__qa__': [r.randint(-40, 40) / 8 for _ in range(3)], 'u': r.choice(['fg', 'pg', 'ng'])}
     if kind == 'qlist':
         return [{'__q__': r.randint(0, 40) / 8, 'u': r.choice(['fg', 'pg', 'ng'])} for _ in range(r.randint(1, 3))]
     if kind == 'dict':
@@ -193,11 +200,11 @@ def rvalue(r, kind):
 
 
 KINDS = {
-    'accumulate': ['int', 'float', 'iarr', 'farr', 'list', 'mass', 'time'],
+    'accumulate': ['int', 'float', 'iarr', 'farr', 'list', 'mass', 'time', 'qarr'],
     'default': ['int', 'float', 'iarr', 'farr', 'mass'],
-    'set': ['int', 'float', 'iarr', 'list', 'dict', 'mass', 'qlist'],
+    'set': ['int', 'float', 'iarr', 'list', 'dict', 'mass', 'qlist', 'qarr'],
     'null': ['int', 'float', 'farr', 'mass'],
-    'nonnegative_accumulate': ['int', 'float', 'iarr', 'farr', 'mass'],
+    'nonnegative_accumulate': ['int', 'float', 'iarr', 'farr', 'mass', 'qarr'],
     'merge': ['dict'],
     'dict_value': ['dictv'],
     'user_fn': ['int', 'float', 'farr'],
@@ -213,6 +220,9 @@ def gen_var(r):
         var['units'] = r.choice(['fg', None])
         if var['units'] and r.random() < 0.4:
             var['default']['u'] = r.choice(['pg', 'ng'])      # declared units win over the unit the default is written in
+    if kind == 'qarr':
+        var['default']['u'] = 'fg'
+        var['units'] = r.choice(['fg', None])
     if kind == 'time':
         var['default']['u'] = 'ms'
         var['units'] = r.choice(['ms', None])
@@ -312,6 +322,8 @@ def real(x):
             return np.array(x['__arr__'])
         if '__q__' in x:
             return x['__q__'] * getattr(units, x['u'])
+        if '__qa__' in x:
+            return np.array(x['__qa__']) * getattr(units, x['u'])
         return {k: real(v) for k, v in x.items()}
     if isinstance(x, list):
         return [real(v) for v in x]
@@ -361,7 +373,7 @@ def run(spec):
     schema['other'] = {'z': {'_default': 7}, 'w': {'_default': [1, 2], '_updater': 'set'}}
 
     def declared_units(var):
-        return getattr(units, {'mass': 'fg', 'time': 'ms', 'qlist': 'fg'}[var['kind']]) if var['kind'] in ('mass', 'time', 'qlist') else None
+        return getattr(units, {'mass': 'fg', 'time': 'ms', 'qlist': 'fg', 'qarr': 'fg'}[var['kind']]) if var['kind'] in ('mass', 'time', 'qlist', 'qarr') else None
 
     # a batch as a nested update + the reference fold
     touched = set()
@@ -398,7 +410,7 @@ def run(spec):
             for k in p[:-1]:
                 node = node.setdefault(k, {})
             node[p[-1]] = ups[0] if len(ups) == 1 else {'_multi_update': ups}
-            if var['kind'] in ('mass', 'time', 'iarr', 'farr', 'qlist'):
+            if var['kind'] in ('mass', 'time', 'iarr', 'farr', 'qlist', 'qarr'):
                 rich = True
         return update
     update = fold(spec['batch'])
